@@ -214,7 +214,7 @@ def prepare(sc):
         x = UTxO(TransactionInput(TransactionId(H(u['txid'])), u['ix']), out)
         utxos.append(x)
         by_addr.setdefault(str(addr), []).append(x)
-    ctx = Ctx(by_addr)
+    ctx = long_lived(Ctx, by_addr)
     b = TransactionBuilder(ctx)
     def supplied(i):
         """what is passed as `script`: the object, or the UTxO that carries it"""
